@@ -152,12 +152,12 @@ def icmp(ty, code, rest, ck=None):
     return struct.pack('>BBH', ty, code, c) + rest
 
 
-def icmp6(ty, code, rest, src=None, dst=None):
+def icmp6(ty, code, rest, src=None, dst=None, ckdelta=0):
     h = struct.pack('>BBH', ty, code, 0) + rest
     c = 0
     if src is not None:
         c = csum16(pseudo(src, dst, 58, len(h)) + h)
-    return struct.pack('>BBH', ty, code, c) + rest
+    return struct.pack('>BBH', ty, code, (c + ckdelta) & 0xffff) + rest
 
 
 def ip4(s):
